@@ -84,6 +84,7 @@ def main(argv=None):
 
     rlimit = int(os.environ.get("PYVC_RLIMIT", "4000000")) * (5 if tier == "thorough" else 1)
     runs = []
+    bounded_runs = []
     assumptions = []
     problems = []  # (kind, text)
     for modname in spec["packs"]:
@@ -104,6 +105,13 @@ def main(argv=None):
             run.cross_check = 2 if tier == "thorough" else 0
             run.run()
             runs.append((pack, c, run))
+            if run.status == "unsupported" and "AnchorLost" in run.message:
+                # the loop a contract was written for has been restructured: bounded stand-in (loops unrolled 3 times, symbolic data),
+                # postconditions only; its results are never counted as discharged
+                br = FunctionRun(pack, c, rlimit=rlimit, jobs=a.jobs)
+                br.bounded_unroll = 3
+                br.run()
+                bounded_runs.append((c, br))
         for fn in getattr(pack, "structural", []):
             # obligations decided by reading the real AST (class bodies, constant tables)
             from .ctx import ObligationResult
@@ -165,6 +173,14 @@ def main(argv=None):
 
     # ---- bounded stand-ins and native conformance (never counted as discharged)
     bounded = []
+    for c, br in bounded_runs:
+        nb = len(br.results)
+        fb = [r for r in br.results if r.status == "failed"]
+        bounded.append({"tool": "pyvc bounded unrolling of %s (loop anchors lost)" % c.qualname, "bound": "loops unrolled <= 3 iterations, symbolic data; postconditions only",
+                        "obligations": nb, "failed": len(fb), "status": br.status})
+        for r in fb:
+            r.name = r.name + " [bounded-unroll<=3]"
+            failed.append((c, r))
     native_viol = []
     for b in spec.get("bounded", []):
         if tier == "quick" and b.get("thorough_only"):
